@@ -9,12 +9,12 @@
    (binary on-demand and reader deserializer walks for every byte string and shape, text stream
    walk; the generic SerdeShape.walk theorem) and Props/C05_leaves.v (scalar conversions, date
    arithmetic under its documented preconditions).
-   NOT covered by a theorem (exercised by props/C05*.py in release and debug builds): the binary
-   tape deserializer walk and the text tape deserializer walk (they need the object grammar /
-   payload-range facts at every index the walks compute), real stack depth (known finding I),
-   allocator failure, pointer provenance.  The binary walk model returns Panic 9001 on shapes
-   containing prop(..) where the implementation returns a deserialize error: a model-only artefact
-   characterised exactly by C05_bde_prop_is_model_artefact (such shapes are not generated). *)
+   Props/C05_tapewalks.v adds the two tape deserializer walks (text: every parsed tape, every shape,
+   own fuel; binary: every byte string, every shape, own fuel) with the parser invariants they need.
+   NOT covered by a theorem: real stack depth (known finding I), allocator failure, pointer
+   provenance.  The binary walk model returns Panic 9001 on shapes containing prop(..) where the
+   implementation returns a deserialize error: a model-only artefact characterised exactly by
+   C05_bde_prop_is_model_artefact (such shapes are not generated). *)
 From JV Require Import Bytes Tables.
 From JV Require TextTape BinTape BinPrim Writer TextReader BufWin.
 From JV.Props Require C02 C03 C06 C08 C12 C13 C15 C16 C17.
